@@ -2,6 +2,7 @@
 C15 — users' assets are never minted or destroyed by the protocol. Property theorems only.
 -/
 import ElysModel.Ledger.Supply
+import ElysModel.Gen.MintBurn
 namespace Elys.Supply.C15
 open FMap
 
@@ -157,5 +158,55 @@ theorem burner_external_witness :
 
 example : classify "uusdc" = .external ∧ classify "amm/pool/3" = .share ∧ classify "uelys" = .native := by
   refine ⟨by simp [classify], by simp [classify], by simp [classify]⟩
+
+/-! ### every mint / burn call site of the code (regenerated table `Gen.MintBurn.sites`, harness/cmd/mintburn) -/
+
+/-- what a call site is, as read by a human once; the table below is re-read whenever the regenerated one differs from it -/
+inductive SiteCls
+  | shareMint | shareBurn          -- pool / vault shares against a deposit or withdrawal (Op.shareMint / Op.shareBurn)
+  | vestingRelease                 -- ELYS against vested Eden (Op.vestingRelease)
+  | virtualMint                    -- Eden / EdenB through the commitment keeper's wrapper, which books them in the commitment ledger and mints nothing
+  | commitmentWrapper              -- the wrapper itself: strips Eden / EdenB, passes the rest (nothing, for the callers above) to x/bank
+  | burner                         -- Op.burnerBurn: as coded any denom (known finding C15-burner-burns-any-denom)
+  | migrationOnly                  -- called only from an upgrade migration (x/amm/migrations/v9): not part of block processing
+  | testHelper                     -- app/test_setup.go
+deriving Repr, DecidableEq
+
+open Elys.Gen.MintBurn in
+def expectedSites : List (Site × SiteCls) := [
+  ({ pkg := "app", file := "test_setup.go", fn := "initAccountWithCoins", callee := "MintCoins", recv := "github.com/cosmos/cosmos-sdk/x/bank/keeper.Keeper", modArg := "minttypes.ModuleName", coins := "coins" }, .testHelper),
+  ({ pkg := "x/amm/keeper", file := "pool.go", fn := "Keeper.MatchAmmBalances", callee := "MintCoins", recv := "x/amm/types.BankKeeper", modArg := "types.ModuleName", coins := "sdk.NewCoins(sdk.NewCoin(asset.Token.Denom, asset.Token.Amount.Sub(balance.Amount)))" }, .migrationOnly),
+  ({ pkg := "x/amm/keeper", file := "pool.go", fn := "Keeper.MatchAmmBalances", callee := "BurnCoins", recv := "x/amm/types.BankKeeper", modArg := "types.ModuleName", coins := "sdk.NewCoins(sdk.NewCoin(asset.Token.Denom, balance.Amount.Sub(asset.Token.Amount)))" }, .migrationOnly),
+  ({ pkg := "x/amm/keeper", file := "pool_share.go", fn := "Keeper.MintPoolShareToAccount", callee := "MintCoins", recv := "x/amm/types.BankKeeper", modArg := "types.ModuleName", coins := "amt" }, .shareMint),
+  ({ pkg := "x/amm/keeper", file := "pool_share.go", fn := "Keeper.BurnPoolShareFromAccount", callee := "BurnCoins", recv := "x/amm/types.BankKeeper", modArg := "types.ModuleName", coins := "coins" }, .shareBurn),
+  ({ pkg := "x/burner/keeper", file := "burn.go", fn := "Keeper.burnCoins", callee := "BurnCoins", recv := "x/burner/types.BankKeeper", modArg := "types.ModuleName", coins := "coins" }, .burner),
+  ({ pkg := "x/commitment/keeper", file := "keeper.go", fn := "Keeper.MintCoins", callee := "MintCoins", recv := "x/commitment/types.BankKeeper", modArg := "moduleName", coins := "amt" }, .commitmentWrapper),
+  ({ pkg := "x/commitment/keeper", file := "keeper.go", fn := "Keeper.BurnCoins", callee := "BurnCoins", recv := "x/commitment/types.BankKeeper", modArg := "moduleName", coins := "amt" }, .commitmentWrapper),
+  ({ pkg := "x/commitment/keeper", file := "msg_server_claim_vesting.go", fn := "Keeper.ClaimVesting", callee := "MintCoins", recv := "x/commitment/types.BankKeeper", modArg := "types.ModuleName", coins := "elysCoins" }, .vestingRelease),
+  ({ pkg := "x/commitment/keeper", file := "msg_server_vest_now.go", fn := "msgServer.VestNow", callee := "MintCoins", recv := "x/commitment/types.BankKeeper", modArg := "types.ModuleName", coins := "withdrawCoins" }, .vestingRelease),
+  ({ pkg := "x/estaking/keeper", file := "abci.go", fn := "Keeper.UpdateStakersRewards", callee := "MintCoins", recv := "x/estaking/types.CommitmentKeeper", modArg := "ccvconsumertypes.ConsumerToSendToProviderName", coins := "sdk.NewCoins(sdk.NewCoin(ptypes.Eden, providerEdenAmount))" }, .virtualMint),
+  ({ pkg := "x/estaking/keeper", file := "abci.go", fn := "Keeper.UpdateStakersRewards", callee := "MintCoins", recv := "x/estaking/types.CommitmentKeeper", modArg := "ccvconsumertypes.ConsumerRedistributeName", coins := "consumerCoins.Sort()" }, .virtualMint),
+  ({ pkg := "x/masterchef/keeper", file := "abci.go", fn := "Keeper.UpdateLPRewards", callee := "MintCoins", recv := "x/masterchef/types.CommitmentKeeper", modArg := "types.ModuleName", coins := "sdk.Coins{sdk.NewCoin(ptypes.Eden, newEdenAllocatedForPool.TruncateInt())}" }, .virtualMint),
+  ({ pkg := "x/stablestake/keeper", file := "msg_server_bond.go", fn := "msgServer.Bond", callee := "MintCoins", recv := "x/stablestake/types.BankKeeper", modArg := "types.ModuleName", coins := "shareCoins" }, .shareMint),
+  ({ pkg := "x/stablestake/keeper", file := "msg_server_unbond.go", fn := "msgServer.Unbond", callee := "BurnCoins", recv := "x/stablestake/types.BankKeeper", modArg := "types.ModuleName", coins := "shareCoins" }, .shareBurn)
+]
+
+/-- which classes of denom a site of the given kind can put into circulation through x/bank during block processing -/
+def mayMint : SiteCls → Cls → Bool
+  | .shareMint, .share => true
+  | .vestingRelease, .native => true
+  | _, _ => false
+
+/-- the regenerated table IS the table that was read: a new call site, a call site that moved, or one whose module or coins
+argument now reads differently breaks this theorem (and with it the check) until the expectation has been re-read -/
+theorem sites_as_expected : Elys.Gen.MintBurn.sites = expectedSites.map (·.1) := by decide
+
+/-- no call site that block processing can reach mints an externally issued asset (nor a virtual one through x/bank) -/
+theorem no_site_mints_external :
+    ∀ sc ∈ expectedSites, sc.1.callee = "MintCoins" → mayMint sc.2 .external = false ∧ mayMint sc.2 .virtualDenom = false := by decide
+
+/-- the only site that can destroy an externally issued asset in block processing is the burner (the known finding) -/
+theorem only_burner_burns_external :
+    ∀ sc ∈ expectedSites, sc.1.callee = "BurnCoins" → sc.2 = .shareBurn ∨ sc.2 = .burner ∨ sc.2 = .commitmentWrapper ∨ sc.2 = .migrationOnly := by decide
 
 end Elys.Supply.C15
